@@ -186,7 +186,10 @@ fn run_tape(part: &str, tape: &[u8], cx: &mut Cx) -> Res {
             check_hide_reveal(&h2, cx)?;
             check_hide_reveal(&h1, cx)
         }
-        "hide-reveal" => check_hide_reveal(&gen_hide(&mut t), cx),
+        "hide-reveal" => {
+            crate::props::history::prior_ops(&mut t, cx, true);
+            check_hide_reveal(&gen_hide(&mut t), cx)
+        }
         _ => check_identity(&mut t, cx),
     }
 }
